@@ -1,1 +1,83 @@
-Require Import BV.model.EzspCases.
+(* C07 -- EZSP frame headers and command schemas form a consistent codec in every version.
+   Statements only; proofs in proofs/EzspCodec_proofs.v.  SCHEMAS / COMMANDS / HEADER_KIND are
+   regenerated from the live command tables of all supported versions on every run (gen/GenCmd.v);
+   the codec functions transliterate bellows/zigpy and are tied to them by the C07 correspondence. *)
+From Coq Require Import String ZArith NArith List Bool.
+Import ListNotations.
+Require Import BV.lib.EzspTypes BV.gen.GenCmd BV.model.EzspCodec BV.model.EzspCases BV.proofs.EzspCodec_proofs.
+Open Scope N_scope.
+
+(* ---- generic codec theorems (any schema, any values) ---------------------------------------- *)
+
+(* feeding the encoding of ANY value tuple of a decodable schema back through the decoder yields
+   exactly those values with no bytes left over.  "Any value tuple" = any on which the encoder is
+   defined: integers in range for their width incl. undefined enum values, byte strings from empty to
+   the maximal length, lists of any admissible count. *)
+Theorem c07_roundtrip : forall s vs bs,
+  wf_schema s = true -> encode_schema s vs = Some bs -> decode_schema s bs = Some (vs, []).
+Proof. exact roundtrip. Qed.
+
+(* header layouts: the reader inverts the writer, for every sequence number and every frame id the
+   layout can carry, whatever payload follows *)
+Theorem c07_header : forall kind seq id h payload,
+  seq < 256 -> header_tx kind seq id = Some h ->
+  header_rx kind (h ++ payload) = Some (seq, id, payload).
+Proof. exact header_roundtrip. Qed.
+
+(* the frame-control bytes and the layout of each of the three header kinds *)
+Theorem c07_header_layout : forall seq id, seq < 256 ->
+  (id < 256 -> header_tx 4 seq id = Some [seq; 0x00; id]) /\
+  (id < 256 -> header_tx 5 seq id = Some [seq; 0x00; 0xFF; 0x00; id]) /\
+  (id < 65536 -> header_tx 8 seq id = Some [seq; 0x00; 0x01; id mod 256; id / 256]).
+Proof. exact header_layout. Qed.
+
+(* positional and keyword argument forms are equivalent: any split of the arguments into a
+   positional prefix and keywords given in any order binds every parameter to its value *)
+Theorem c07_positional_keyword : forall (A : Type) (keys : list string) (vs : list A) (k : nat) (kw : list (string * A)),
+  NoDup keys -> List.length vs = List.length keys ->
+  Permutation.Permutation kw (skipn k (combine keys vs)) ->
+  bind_args A keys (firstn k vs) kw = Some vs.
+Proof. exact positional_keyword. Qed.
+
+(* ---- the generated tables ---------------------------------------------------------------------- *)
+(* vocabulary (proofs file):
+   version_ok v := In v (map fst COMMANDS)                          one of the 11 supported versions
+   table_ok v   := let cs := commands_of v in
+                   NoDup (map c_id cs) /\ NoDup (map c_name cs)
+                   /\ (forall c, In c cs -> c_id c < id_limit (kind_of v)
+                                            /\ wf_schema (schema_at SCHEMAS (c_rx c)) = true)
+                   /\ kind_of v = (if v =? 4 then 4 else if v <? 8 then 5 else 8)                 *)
+
+Theorem c07_versions : map fst COMMANDS = [4; 5; 6; 7; 8; 9; 10; 11; 12; 13; 14].
+Proof. vm_compute. reflexivity. Qed.
+
+(* in every version each frame id belongs to exactly one command, every id fits the version's
+   header layout, and every response / callback schema is decodable *)
+Theorem c07_tables : forall v, version_ok v -> table_ok v.
+Proof. exact tables_ok. Qed.
+
+(* the whole receive path: for every version, every command of it and every value tuple, the frame
+   the NCP sends for it decodes to that very command, those values, its sequence number, nothing left *)
+Theorem c07_frame_roundtrip : forall v c seq vs frame,
+  version_ok v -> In c (commands_of v) -> seq < 256 ->
+  frame_rx_encode SCHEMAS (kind_of v) seq c vs = Some frame ->
+  frame_rx_decode SCHEMAS (kind_of v) (commands_of v) frame = Some (seq, c, vs, []).
+Proof. exact frame_roundtrip. Qed.
+
+(* a request is the sequence number, the frame-control bytes and the frame id in the version's
+   layout, followed by the arguments serialised in declared order *)
+Theorem c07_request_layout : forall v c seq vs frame,
+  version_ok v -> In c (commands_of v) -> seq < 256 ->
+  frame_tx SCHEMAS (kind_of v) seq c vs = Some frame ->
+  exists h args, header_tx (kind_of v) seq (c_id c) = Some h /\
+                 encode_schema (schema_at SCHEMAS (c_tx c)) vs = Some args /\ frame = h ++ args.
+Proof. exact request_layout. Qed.
+
+(* non-vacuity: a response with a length-prefixed list and 16-byte key, v8 layout *)
+Example c07_example :
+  let s := [IP (PU 1); ILV 1 [PU 2; PS 1]; IP (PLV 1); IOpt [PU 1]] in
+  let vs := [XP (VI 200); XL [[VI 65535; VI (-128)]; [VI 0; VI 127]]; XP (VB [1; 2; 3]); XNone] in
+  wf_schema s = true /\
+  encode_schema s vs = Some [200; 2; 255; 255; 128; 0; 0; 127; 3; 1; 2; 3] /\
+  decode_schema s [200; 2; 255; 255; 128; 0; 0; 127; 3; 1; 2; 3] = Some (vs, []).
+Proof. vm_compute. repeat split. Qed.
